@@ -40,7 +40,7 @@ Accept(d, n, seen) ==
        /\ <<s, d.hdr.ctr>> \notin seen                           \* and was not accepted before
 
 Classes == {"genuine", "bitHdrFlags", "bitSessId", "bitSecFlags", "bitCounter", "bitCipher", "bitTag",
-            "truncate", "extend", "transplantHeader", "otherSession", "reflect", "otherSourceNode", "replay"}
+            "truncate", "extend", "runt", "transplantHeader", "otherSession", "reflect", "otherSourceNode", "replay"}
 Mutate(g, g2, c) ==
   CASE c = "genuine" -> g
     [] c = "bitHdrFlags"  -> [g EXCEPT !.hdr = [@ EXCEPT !.to = "nobody"]]          \* header no longer parses to the same fields
@@ -51,6 +51,7 @@ Mutate(g, g2, c) ==
     [] c = "bitTag"       -> [g EXCEPT !.tagOk = FALSE]
     [] c = "truncate"     -> [g EXCEPT !.tagOk = FALSE]
     [] c = "extend"       -> [g EXCEPT !.tagOk = FALSE]
+    [] c = "runt"         -> [g EXCEPT !.hdr.ctr = @ + 40, !.tagOk = FALSE]              \* fresh counter, a body too short to hold a tag at all
     [] c = "transplantHeader" -> [g EXCEPT !.hdr = g2.hdr]                            \* header of another genuine datagram
     [] c = "otherSession" -> [g EXCEPT !.hdr.sess = SessIdAt(2, "B"), !.aad.sess = SessIdAt(2, "B")]   \* re-addressed and re-authenticated under the wrong key
     [] c = "reflect"      -> [g EXCEPT !.hdr.to = "A", !.aad.to = "A"]                \* sent back to its sender
@@ -70,7 +71,7 @@ GAccept(d, seen) ==
   /\ d.hdr.to = "B" /\ d.hdr.enc /\ d.hdr.sess = 77 /\ d.hdr.dst \in Groups
   /\ d.key = GKey /\ d.nonceNode = d.hdr.src /\ d.aad = d.hdr /\ d.tagOk
   /\ <<d.hdr.src, d.hdr.ctr>> \notin seen
-GClasses == {"genuine", "bitHdrFlags", "bitSessId", "bitSecFlags", "bitCounter", "bitCipher", "bitTag", "truncate", "extend",
+GClasses == {"genuine", "bitHdrFlags", "bitSessId", "bitSecFlags", "bitCounter", "bitCipher", "bitTag", "truncate", "extend", "runt",
              "transplantHeader", "bitSrcNode", "bitDstGroup", "transplantGroup", "otherSourceNode", "replay", "secondSender"}
 GMutate(g, g2, c) ==
   CASE c \in {"genuine", "replay"} -> g
@@ -79,6 +80,7 @@ GMutate(g, g2, c) ==
     [] c = "bitSecFlags"  -> [g EXCEPT !.hdr.enc = FALSE]
     [] c = "bitCounter"   -> [g EXCEPT !.hdr.ctr = @ + 1]
     [] c \in {"bitCipher", "bitTag", "truncate", "extend"} -> [g EXCEPT !.tagOk = FALSE]
+    [] c = "runt"         -> [g EXCEPT !.hdr.ctr = @ + 40, !.tagOk = FALSE]
     [] c = "transplantHeader" -> [g EXCEPT !.hdr = g2.hdr]
     [] c = "bitSrcNode"   -> [g EXCEPT !.hdr.src = @ + 1]                       \* header names another source, body untouched
     [] c = "bitDstGroup"  -> [g EXCEPT !.hdr.dst = 3]                           \* a group the receiver does not know
